@@ -9,6 +9,7 @@ import (
 
 	ike "github.com/free5gc/ike"
 	"github.com/free5gc/ike/message"
+	"github.com/free5gc/ike/security"
 	"pgregory.net/rapid"
 
 	"verif/bridge"
@@ -107,6 +108,9 @@ type c20DecIn struct {
 	Keys    *bridge.KeySet  `json:"keys,omitempty"`
 	RecvI   bool            `json:"recv_initiator"`
 	WithHdr bool            `json:"with_header"`
+	// Path for unprotected input: "" = (*IKEMessage).Decode, "dd" = ike.DecodeDecrypt without keys (header mode as WithHdr),
+	// "dd-key" = ike.DecodeDecrypt with keys (the datagram simply is not protected)
+	Path string `json:"path,omitempty"`
 }
 
 func c20DecodeOracle(in c20DecIn) probe.Outcome {
@@ -114,14 +118,18 @@ func c20DecodeOracle(in c20DecIn) probe.Outcome {
 	x := probe.Spare(in.W, 0x3c)
 	var m *message.IKEMessage
 	err := probe.Try(func() error {
-		if !in.Protect {
+		if !in.Protect && in.Path == "" {
 			m = new(message.IKEMessage)
 			return m.Decode(x)
 		}
-		sa, err := bridge.NewSA(in.Suite, *in.Keys)
-		if err != nil {
-			return fmt.Errorf("HARNESS: %w", err)
+		var sa *security.IKESAKey
+		if in.Protect || in.Path == "dd-key" {
+			var err error
+			if sa, err = bridge.NewSA(in.Suite, *in.Keys); err != nil {
+				return fmt.Errorf("HARNESS: %w", err)
+			}
 		}
+		var err error
 		var hdr *message.IKEHeader
 		if in.WithHdr {
 			if hdr, err = message.ParseHeader(x); err != nil {
@@ -169,12 +177,26 @@ func c20DecodeOracle(in c20DecIn) probe.Outcome {
 	if in.Protect {
 		labels = append(labels, "unprotect")
 	}
+	if in.Path != "" {
+		labels = append(labels, fmt.Sprintf("path:DecodeDecrypt(%s,hdr=%v)", in.Path, in.WithHdr))
+	}
 	return probe.Outcome{NonTrivial: variable, Labels: append(labels, before.Labels()...)}
 }
 
 var c20Decode = probe.Define("C20", "decode-owns-data", func(t *rapid.T) c20DecIn {
 	im := genImage(t)
-	return c20DecIn{W: im.W, Origin: im.Origin}
+	in := c20DecIn{W: im.W, Origin: im.Origin}
+	in.Path = rapid.SampledFrom([]string{"", "", "dd", "dd-key"}).Draw(t, "path")
+	if in.Path != "" {
+		in.WithHdr, in.RecvI = rapid.Bool().Draw(t, "withhdr"), rapid.Bool().Draw(t, "recvI")
+		if len(im.W) < 28 {
+			in.WithHdr = false
+		}
+	}
+	if in.Path == "dd-key" {
+		in.Suite, in.Keys = c04RandomKeys(t)
+	}
+	return in
 }, c20DecodeOracle)
 
 var c20Unprotect = probe.Define("C20", "unprotect-owns-data", func(t *rapid.T) c20DecIn {
@@ -279,6 +301,7 @@ var c20Protect = probe.Define("C20", "protect-touches-only-the-list", func(t *ra
 		return probe.Fail("HARNESS: %v", err)
 	}
 	held := append(message.IKEPayloadContainer(nil), lm.Payloads...) // the payload objects the caller still holds
+	callers := lm.Payloads                                           // the caller's own container variable (same backing array as the message's)
 	var w []byte
 	if err := probe.Try(func() error { var e error; w, e = ike.EncodeEncrypt(lm, sa, bridge.Role(in.SendI)); return e }); err != nil {
 		return probe.Fail("EncodeEncrypt: %v", err)
@@ -289,6 +312,11 @@ var c20Protect = probe.Define("C20", "protect-touches-only-the-list", func(t *ra
 	}
 	if d := model.DiffPayloads(in.Msg.Payloads, heldModel); d != "" {
 		return probe.Fail("EncodeEncrypt altered a payload the caller holds: %s", d)
+	}
+	for i := range held {
+		if callers[i] != held[i] {
+			return probe.Fail("EncodeEncrypt overwrote element %d of the payload container the caller still holds (the container passed to the message)", i)
+		}
 	}
 	if h := bridge.FromLibHeader(lm.IKEHeader); h != in.Msg.Header {
 		return probe.Fail("EncodeEncrypt altered header fields: %+v != %+v", h, in.Msg.Header)
